@@ -25,7 +25,7 @@ func (rs *ReedSolomonEncoder) getPolynomial(degree int) *GFPoly {
 	if degree >= len(rs.polynomes) {
 		last := rs.polynomes[len(rs.polynomes)-1]
 		for d := len(rs.polynomes); d <= degree; d++ {
-			next := last.Multiply(NewGFPoly(rs.gf, []int{1, rs.gf.ALogTbl[d-1+rs.gf.Base]}))
+			next := last.Multiply(NewGFPoly(rs.gf, []int{1, rs.gf.ALogTbl[(d-1+rs.gf.Base)%(rs.gf.Size-1)]}))
 			rs.polynomes = append(rs.polynomes, next)
 			last = next
 		}
